@@ -198,6 +198,9 @@ impl C10 {
                                 };
                                 let kind = if x.len() < y.len() { "rows_missing_with_index" } else if x.len() > y.len() { "rows_extra_with_index" } else { "rows_differ" };
                                 let mut tags: Vec<&str> = r.tags.clone();
+                                if case.h.tables.iter().any(|t| !crate::hist::prefill_rows(t).is_empty()) {
+                                    tags.push("multi_page_table");
+                                }
                                 tags.sort();
                                 tags.dedup();
                                 let tail: Vec<String> = log.iter().rev().take(10).rev().cloned().map(|s| crate::histrun::short(&s)).collect();
